@@ -131,7 +131,11 @@ def run_mode(mode, name, seed, space_seed, steps):
     from vizier.benchmarks import experimenters
     from vizier._src.benchmarks.experimenters.synthetic import bbob
     from vizier._src.benchmarks.runners import benchmark_runner, benchmark_state
-    exp = experimenters.NumpyExperimenter(bbob.Sphere, bbob.DefaultBBOBProblemStatement(2 + space_seed % 3))
+    # a ROTATED function with a non-zero rotation seed that follows the run's seed (the experimenter half of a seeded benchmark):
+    # runs with other rotation seeds earlier in the same process must not matter
+    import functools
+    rot_fn = [bbob.Rastrigin, bbob.Ellipsoidal, bbob.Discus, bbob.Sphere][(space_seed // 27) % 4]
+    exp = experimenters.NumpyExperimenter(functools.partial(rot_fn, seed=1 + seed % 4), bbob.DefaultBBOBProblemStatement(2 + space_seed % 3))
     # seeded wrappers that carry their own randomness
     from vizier._src.benchmarks.experimenters import infeasible_experimenter, noisy_experimenter
     wrap = (space_seed // 3) % 3
@@ -186,6 +190,9 @@ def main():
   elif spec.get('before'):
     # another study first, in the same process
     run_mode('designer', spec['before'], 1, 99, [2, 2])
+    if spec['mode'] == 'benchmark':
+      # another seeded benchmark (another rotation seed, same dimension) ran before in this process
+      run_mode('benchmark', spec['before'], spec['seed'] + 1, spec['space_seed'], [2])
   res = run_mode(spec['mode'], spec['name'], spec['seed'], spec['space_seed'], spec['steps'])
   print('C14RESULT ' + json.dumps(res, sort_keys=True))
 
